@@ -26,16 +26,22 @@ BUILTIN = {"f": "<builtin>", "a": 0}
 KINDS = ["plain_uri", "fqn_uri", "plain_search", "rrel", "plain_glob", "fqn_glob"]
 GLOB_KINDS = ("plain_glob", "fqn_glob")
 
-GRAMMAR = r'''
+GRAMMAR = r"""
 Model:   imports*=Import elems*=Elem;
 Import:  'import' importURI=STRING;
-Elem:    Def | Use;
+Elem:    Def | UseList | Use;
 Def:     'def' name=ID;
 Use:     'use' ref=[Def:QName];
+UseList: 'refs' refs+=[Def:QName][','];
 QName:   ID('.'ID)*;
-'''
-GRAMMAR_RREL = GRAMMAR.replace("ref=[Def:QName]", "ref=[Def:QName|+m:elems]")
-PARAM_VALUES = {"p": 1, "q": "v", "zzz": 0}
+"""
+GRAMMAR_RREL = GRAMMAR.replace("[Def:QName]", "[Def:QName|+m:elems]")
+# parameter values: the module speaks of names; which values they carry is rendering
+PARAM_VALUES = {"std": {"p": 1, "q": "v", "zzz": 0},
+                "none": {"p": None, "q": None, "zzz": None},
+                "falsy": {"p": 0, "q": "", "zzz": False}}
+GLOB_PATTERN = "*.m?"
+LANG_PATTERN = {"A": "*.?a", "B": "*.?b"}
 
 
 class InjectedFailure(Exception):
@@ -48,15 +54,22 @@ class InjectedFailure(Exception):
 
 # ----------------------------------------------------------------------------- rendering
 def file_name(sc, f):
-    return f + (".m" if f in sc["glob"] else ".n")
+    """x.<m|n><a|b>: m = matched by the glob pattern, a/b = language (file pattern of the language)"""
+    return f + "." + ("m" if f in sc["glob"] else "n") + sc["lang"][f].lower()
+
+
+def file_key(path):
+    base = os.path.basename(str(path))
+    return base[:-3] if len(base) == 4 and base[1] == "." else base
 
 
 def content(sc, f, fault_on):
     """Items of file f while the scenario's fault is (not) present: the abstract file system."""
-    defs, refs, broken = list(sc["defs"][f]), list(sc["refs"][f]), False
+    defs, uses, lrefs, broken = list(sc["defs"][f]), list(sc["refs"][f]), list(sc["lrefs"][f]), False
     fl = sc["fault"]
     if fault_on and fl["file"] == f:
         k = fl["kind"]
+        bad = lrefs if fl.get("at") == "list" else uses
         if k == "objproc":
             defs.append("bado")
         elif k == "modelproc":
@@ -64,45 +77,55 @@ def content(sc, f, fault_on):
         elif k == "notunique":
             defs.append(defs[0])
         elif k == "unknown":
-            refs.append("nope")
+            bad.append("nope")
         elif k == "postponed":
-            refs.append("pp")
+            bad.append("pp")
         elif k == "syntax":
             broken = True
-    return defs, refs, broken
+    return defs, uses, lrefs, broken
+
+
+def builtin_text(sc):
+    names = list(sc["builtin"])
+    if sc["fault"]["kind"] == "notunique" and sc["fault"]["file"] == "<builtin>":
+        names.append(names[0])
+    return "".join(f"def {n}\n" for n in names)
 
 
 def render(sc, f, fault_on):
-    defs, refs, broken = content(sc, f, fault_on)
+    defs, uses, lrefs, broken = content(sc, f, fault_on)
     ind = " " * sc["ind"][f]
     lines = [""] * sc["pad"][f]
     for s in sc["imports"][f]:
-        target = "*.m" if s == "*" else file_name(sc, s)
+        target = GLOB_PATTERN if s == "*" else file_name(sc, s)
         lines.append(f'{ind}import "{target}"')
     lines += [f"{ind}def {n}" for n in defs]
-    lines += [f"{ind}use {n}" for n in refs]
+    lines += [f"{ind}use {n}" for n in uses]
+    if lrefs:
+        lines.append(f"{ind}refs " + ", ".join(lrefs))
     if broken:
         lines.append(f"{ind}@@")
     for ln in lines:                       # renderer self-check: the layout the module assumes
         if ln and not (ln.startswith(ind) and not ln[len(ind):].startswith(" ")):
             raise tlc.MachineryError("renderer produced an unexpected line")
-        if "import" in ln and len(ln) != len(ind) + 12:
-            raise tlc.MachineryError("import line is not 12 characters long")
+        if "import" in ln and len(ln) != len(ind) + 13:
+            raise tlc.MachineryError("import line is not 13 characters long")
     return "".join(ln + "\n" for ln in lines)
 
 
 # ----------------------------------------------------------------------------- running
 class Session:
-    """One metamodel, one scratch directory, the scenario's session executed step by step."""
+    """The metamodels of the scenario's languages, one scratch directory, the session step by step."""
 
     def __init__(self, sc, root):
         import textx
         import textx.metamodel
         import textx.model
         import textx.scoping.providers as sp
-        from textx.scoping import ModelLoader, ModelRepository, Postponed
+        from textx.scoping import GlobalModelRepository, ModelLoader, ModelRepository, Postponed
 
         self.sc, self.root = sc, root
+        self.textx = textx
         self.lib = os.path.join(root, "lib") if sc["kind"] == "plain_search" else root
         os.makedirs(self.lib, exist_ok=True)
         self.fault_on = True
@@ -114,57 +137,33 @@ class Session:
         self.keep = []
         self.attempt = 0
         self.hist_ops = []
-        self.cur_main = None
         self._last_objproc = None
         kind = sc["kind"]
-        kw = {}
+        builtin = None
         if sc["builtin"]:
             bmm = textx.metamodel_from_str(GRAMMAR)
-            bm = bmm.model_from_str("".join(f"def {n}\n" for n in sc["builtin"]))
-            rep = ModelRepository()
-            rep.add_model(bm)
+            bm = bmm.model_from_str(builtin_text(sc))
+            builtin = ModelRepository()
+            builtin.add_model(bm)
             self.labels[id(bm)] = BUILTIN
             self.keep.append(bm)
-            kw["builtin_models"] = rep
-        if sc["grepo"]:
-            kw["global_repository"] = True
-        mm = textx.metamodel_from_str(GRAMMAR_RREL if kind == "rrel" else GRAMMAR, **kw)
-        self.mm = mm
-        for p in sc["declared"]:
-            mm.model_param_defs.add(p, "harness parameter " + p)
-        pattern = os.path.join(root, "*.m")
-        if kind == "plain_uri":
-            prov = sp.PlainNameImportURI()
-        elif kind == "fqn_uri":
-            prov = sp.FQNImportURI()
-        elif kind == "plain_search":
-            prov = sp.PlainNameImportURI(search_path=[root, self.lib])
-        elif kind == "plain_glob":
-            prov = sp.PlainNameGlobalRepo(pattern)
-        elif kind == "fqn_glob":
-            prov = sp.FQNGlobalRepo(pattern)
-        elif kind == "rrel":
-            prov = None
-        else:
-            raise tlc.MachineryError("unknown provider kind " + kind)
-        self.prov = prov
+        langs = sorted(set(sc["lang"].values()))
+        rids = [sc["repo"][lg] for lg in langs if sc["repo"][lg] != "-"]
+        shared = {r: GlobalModelRepository() for r in set(rids) if rids.count(r) > 1}
 
-        if prov is not None:
-            class Postponing(ModelLoader):
-                """user-level provider: postpones the name `pp` for ever, delegates otherwise"""
+        class Postponing(ModelLoader):
+            """user-level provider: postpones the name `pp` for ever, delegates otherwise"""
 
-                def __init__(self, inner):
-                    self.inner = inner
+            def __init__(self, inner):
+                self.inner = inner
 
-                def load_models(self, model, encoding="utf-8"):
-                    return self.inner.load_models(model, encoding=encoding)
+            def load_models(self, model, encoding="utf-8"):
+                return self.inner.load_models(model, encoding=encoding)
 
-                def __call__(self, obj, attr, obj_ref):
-                    if obj_ref.obj_name == "pp":
-                        return Postponed()
-                    return self.inner(obj, attr, obj_ref)
-
-            mm.register_scope_providers({"*.*": Postponing(prov)})
+            def __call__(self, obj, attr, obj_ref):
+                if obj_ref.obj_name == "pp":
+                    return Postponed()
+                return self.inner(obj, attr, obj_ref)
 
         def model_proc(model, _mm):
             f = self.file_key(model)
@@ -182,12 +181,48 @@ class Session:
             if obj.name == "bado":
                 raise InjectedFailure("objproc", self.file_key(m))
 
-        mm.register_model_processor(model_proc)
-        mm.register_obj_processors({"Def": def_proc})
+        self.mms, self.provs, self.repo_of = {}, {}, {}
+        pattern = os.path.join(root, GLOB_PATTERN)
+        for lg in langs:
+            kw = {}
+            if builtin is not None:
+                kw["builtin_models"] = builtin
+            rid = sc["repo"][lg]
+            if rid != "-":
+                kw["global_repository"] = shared.get(rid, True)
+            mm = textx.metamodel_from_str(GRAMMAR_RREL if kind == "rrel" else GRAMMAR, **kw)
+            for p in sc["declared"][lg]:
+                mm.model_param_defs.add(p, "harness parameter " + p)
+            if kind == "plain_uri":
+                prov = sp.PlainNameImportURI()
+            elif kind == "fqn_uri":
+                prov = sp.FQNImportURI()
+            elif kind == "plain_search":
+                prov = sp.PlainNameImportURI(search_path=[root, self.lib])
+            elif kind == "plain_glob":
+                prov = sp.PlainNameGlobalRepo(pattern)
+            elif kind == "fqn_glob":
+                prov = sp.FQNGlobalRepo(pattern)
+            elif kind == "rrel":
+                prov = None
+            else:
+                raise tlc.MachineryError("unknown provider kind " + kind)
+            if prov is not None:
+                mm.register_scope_providers({"*.*": Postponing(prov)})
+            mm.register_model_processor(model_proc)
+            mm.register_obj_processors({"Def": def_proc})
+            self.mms[lg], self.provs[lg] = mm, prov
+            if rid != "-":
+                self.repo_of.setdefault(rid, mm._tx_model_repository)
+        self.registered = len(langs) > 1
+        if self.registered:                 # file dispatch through the language registry
+            textx.clear_language_registrations()
+            for lg in langs:
+                textx.register_language("vt-lang-" + lg.lower(), pattern=LANG_PATTERN[lg],
+                                        description="harness language " + lg, metamodel=self.mms[lg])
 
         def counting_open(file, *a, **k):
-            base = os.path.basename(str(file))
-            key = base[:-2] if base[-2:] in (".m", ".n") else base
+            key = file_key(file)
             self.opens[key] = self.opens.get(key, 0) + 1
             self.events.append({"e": "Open", "file": key})
             return builtins.open(file, *a, **k)
@@ -207,6 +242,8 @@ class Session:
                     pass
             else:
                 m.open = s
+        if self.registered:
+            self.textx.clear_language_registrations()
 
     # ---- file system
     def path(self, f):
@@ -222,9 +259,8 @@ class Session:
     def file_key(self, model):
         fn = getattr(model, "_tx_filename", None)
         if not fn:
-            return self.cur_main if id(model) not in self.labels else self.labels[id(model)]["f"]
-        base = os.path.basename(fn)
-        return base[:-2] if base[-2:] in (".m", ".n") else base
+            return self.labels[id(model)]["f"] if id(model) in self.labels else "~"
+        return file_key(fn)
 
     def label(self, model):
         lb = self.labels.get(id(model))
@@ -241,26 +277,29 @@ class Session:
         self.keep.append(model)
         return lb
 
-    @staticmethod
-    def repo_key(k):
-        base = os.path.basename(k)
-        return base[:-2] if base[-2:] in (".m", ".n") else base
+    def repo_key(self, k, model=None):
+        """key of a repository entry; the invented keys anonymous<N> are named after the model"""
+        if str(k).startswith("anonymous") and model is not None:
+            return "~" + str(self.label(model)["a"])
+        return file_key(k)
 
     # ---- one top-level load
     def load(self, op):
-        sc, mm = self.sc, self.mm
+        sc = self.sc
+        mm = self.mms[sc["lang"][op["file"]]]
         self.attempt = len(self.hist_ops) + 1
-        self.cur_main = op["file"]
         self.opens = {}
         self._last_objproc = None
         self.events.append({"e": "LoadBegin", "file": op["file"]})
         kwargs = {}
         for p in op["given"]:
-            kwargs[p] = self.root if p == "project_root" else PARAM_VALUES[p]
+            kwargs[p] = self.root if p == "project_root" else PARAM_VALUES[op.get("vals", "std")][p]
+        self.cur_values = kwargs
         if sc["kind"] in GLOB_KINDS:
             # with project_root the pattern is relative to it, otherwise absolute (same files)
-            pat = "*.m" if "project_root" in op["given"] else os.path.join(self.root, "*.m")
-            self.prov.filename_pattern_list = [pat]
+            pat = GLOB_PATTERN if "project_root" in op["given"] else os.path.join(self.root, GLOB_PATTERN)
+            for prov in self.provs.values():
+                prov.filename_pattern_list = [pat]
         path = self.path(op["file"])
         model, err = None, None
         try:
@@ -301,28 +340,45 @@ class Session:
         line, col = getattr(e, "line", None), getattr(e, "col", None)
         if kind in ("objproc", "modelproc"):
             fn, line, col = None, None, None
-        return {"ok": False, "kind": kind, "file": self.repo_key(fn) if fn else NONE,
+        return {"ok": False, "kind": kind, "file": file_key(fn) if fn else NONE,
                 "line": int(line or 0), "col": int(col or 0), "model": {"f": "-", "a": 0}}
+
+    def param_names(self, m):
+        """names a model exposes; a name whose value is not the given one is marked"""
+        mp = getattr(m, "_tx_model_params", None)
+        if mp is None:
+            return ["!missing"]
+        created_now = self.labels[id(m)]["a"] == self.attempt
+        out = []
+        for name in sorted(mp):
+            if created_now and name in self.cur_values:
+                want, got = self.cur_values[name], mp[name]
+                same = got is want or (type(got) is type(want) and got == want)
+                out.append(name if same else f"{name}=!{got!r}")
+            else:
+                out.append(name)
+        return out
 
     def summary(self, op, model, err):
         from textx import get_model
-        mm = self.mm
         if err is None:
             res = {"ok": True, "kind": "ok", "file": NONE, "line": 0, "col": 0, "model": self.label(model)}
         else:
             res = self.classify(err)
         grepo = []
-        if hasattr(mm, "_tx_model_repository"):
-            for k, m in mm._tx_model_repository.all_models.filename_to_model.items():
-                grepo.append({"f": self.repo_key(k), "m": self.label(m)})
+        for rid, repo in sorted(self.repo_of.items()):
+            for k, m in repo.all_models.filename_to_model.items():
+                grepo.append({"r": rid, "f": self.repo_key(k, m), "m": self.label(m)})
         incl, local, params, tg = [], [], [], []
         if err is None:
             models = []
             if hasattr(model, "_tx_model_repository"):
                 for k, m in model._tx_model_repository.all_models.filename_to_model.items():
                     models.append(m)
-                    if self.repo_key(k) != self.label(m)["f"]:
-                        incl.append({"f": "!key:" + self.repo_key(k), "a": 0})
+                    lb = self.label(m)
+                    want = "~" + str(lb["a"]) if lb["f"] == "~" else lb["f"]
+                    if self.repo_key(k, m) != want:
+                        incl.append({"f": "!key:" + self.repo_key(k, m), "a": 0})
             if not any(m is model for m in models):
                 models.append(model)
             for m in models:
@@ -333,24 +389,16 @@ class Session:
                     allm = m._tx_model_repository.all_models.filename_to_model
                     for k, lm in m._tx_model_repository.local_models.filename_to_model.items():
                         same = k in allm and allm[k] is lm
-                        fs.append(self.repo_key(k) if same else "!notshared:" + self.repo_key(k))
+                        fs.append(self.repo_key(k, lm) if same else "!notshared:" + self.repo_key(k, lm))
                 local.append({"m": lb, "fs": sorted(fs)})
-                ps = []
-                mp = getattr(m, "_tx_model_params", None)
-                if mp is None:
-                    ps.append("!missing")
-                else:
-                    for name in sorted(mp):
-                        want = self.root if name == "project_root" else PARAM_VALUES.get(name)
-                        ps.append(name if mp[name] == want else f"{name}=!{mp[name]!r}")
-                params.append({"m": lb, "ps": ps})
-                i = 0
+                params.append({"m": lb, "ps": self.param_names(m)})
+                refs = [(el, "ref", None) for el in m.elems if el.__class__.__name__ == "Use"]
                 for el in m.elems:
-                    if el.__class__.__name__ != "Use":
-                        continue
-                    i += 1
+                    if el.__class__.__name__ == "UseList":
+                        refs += [(el, "refs", j) for j in range(len(el.refs))]
+                for i, (el, attr, j) in enumerate(refs, 1):
                     try:                       # whatever is found there is the observation
-                        t = el.ref
+                        t = getattr(el, attr) if j is None else getattr(el, attr)[j]
                         tm = get_model(t)
                         tl = self.labels.get(id(tm)) or self.label(tm)
                         idx = [x for x in tm.elems if x.__class__.__name__ == "Def"].index(t) + 1
@@ -454,7 +502,7 @@ def judge_scenario(rep, sc, obs_hist, outs, findings, nontrivial, case_extra=Non
     if case_extra:
         case.update(case_extra)
     if best is not None and not best["dev"]:
-        rep.passed(dict(kind=sc["kind"], grepo=sc["grepo"], imports=sc["imports"], fault=sc["fault"],
+        rep.passed(dict(kind=sc["kind"], repo=sc["repo"], lang=sc["lang"], imports=sc["imports"], fault=sc["fault"],
                         session=[[o["op"], o["file"], o["how"], o["given"]] for o in sc["session"]]),
                    nontrivial=nontrivial)
         return "pass"
@@ -465,7 +513,7 @@ def judge_scenario(rep, sc, obs_hist, outs, findings, nontrivial, case_extra=Non
         return "known"
     exp0 = [o["hist"] for o in outs if not o["dev"]]
     rep.violation(dict(case, observed=obs_hist, expected=exp0[:2]),
-                  f"kind={sc['kind']} grepo={sc['grepo']} imports={sc['imports']} fault={sc['fault']}: "
+                  f"kind={sc['kind']} repo={sc['repo']} lang={sc['lang']} imports={sc['imports']} fault={sc['fault']}: "
                   f"the loads differ from every behaviour of LoaderRepo ({'; '.join(sorted(set(whys)))[:160]}); "
                   f"observed results {[h['res'] for h in obs_hist]}")
     return "violation"
@@ -573,14 +621,22 @@ LETTERS = ["a", "b", "c", "d", "e", "f"]
 def random_scenario(rng, profile):
     """A seeded-random scenario inside the fragment the module is stated for:
     at most one injected fault; a duplicate definition only as that fault and only for a
-    name no other file defines; with RREL every file that imports has a reference; string
-    loads without a file name only for models without imports under ImportURI providers."""
+    name no other model defines; with RREL every file that imports has a reference; string
+    loads without a file name only with GlobalRepo providers or for models without imports."""
     n = rng.randint(3, 6) if profile != "C27" else rng.randint(1, 4)
     files = LETTERS[:n]
     kind = rng.choice(KINDS)
     glob_kind = kind in GLOB_KINDS
     star_ok = kind in ("plain_uri", "fqn_uri", "rrel")
     glob = [f for f in files if rng.random() < 0.8] or [files[-1]]
+    two = n >= 2 and rng.random() < (0.45 if profile in ("C17", "C27") else 0.2)
+    lang = {f: ("B" if two and rng.random() < 0.45 else "A") for f in files}
+    if two and len(set(lang.values())) == 1:
+        lang[files[-1]] = "B"
+    repo = rng.choice([{"A": "-", "B": "-"}, {"A": "r1", "B": "-"}, {"A": "r1", "B": "r2"},
+                       {"A": "r1", "B": "r1"}, {"A": "-", "B": "r2"}, {"A": "r1", "B": "r2"}])
+    if not two:
+        repo = dict(repo, B="-")
     imports = {}
     for f in files:
         if glob_kind and rng.random() < 0.8:
@@ -593,7 +649,7 @@ def random_scenario(rng, profile):
         imports[f] = imp
     shared = ["s1", "s2"]
     defs = {f: ["u" + f] + [s for s in shared if rng.random() < 0.3] for f in files}
-    builtin = rng.choice([[], [], ["s1", "ub", "k"], ["k"]])
+    builtin = rng.choice([[], [], ["s1", "ub", "k"], ["k"], ["kb", "k"]])
 
     def direct(f):
         if glob_kind:
@@ -603,7 +659,7 @@ def random_scenario(rng, profile):
             out |= set(glob) if s == "*" else {s}
         return out
 
-    refs = {}
+    refs, lrefs = {}, {}
     clean = True
     for f in files:
         vis = set(defs[f]) | set(builtin)
@@ -617,49 +673,55 @@ def random_scenario(rng, profile):
         if not r and (imports[f] or rng.random() < 0.5):
             r = ["u" + f]
         rng.shuffle(r)
-        refs[f] = r
-    fault = {"kind": "none", "file": "-"}
+        cut = rng.randint(0, len(r)) if rng.random() < (0.6 if profile == "C28" else 0.3) else len(r)
+        refs[f], lrefs[f] = r[:cut], r[cut:]
+    fault = {"kind": "none", "file": "-", "at": "use"}
     phases = {"C17": [], "C27": [],
               "C18": ["syntax", "unknown", "objproc", "modelproc", "modelproc"],
               "C28": ["syntax", "unknown", "postponed", "notunique", "unknown", "postponed", "notunique"]}[profile]
     if phases and rng.random() < 0.85:
         ph = rng.choice(phases)
         ff = rng.choice(files)
+        at = rng.choice(["use", "list"])
         if ph == "postponed" and kind == "rrel":
             ph = "unknown"
         if ph == "notunique" and kind not in ("plain_uri", "plain_search", "plain_glob"):
             ph = "syntax"
         if ph == "notunique":
-            # somebody who sees the file must mention the duplicated name
-            users = [g for g in files if g == ff or ff in direct(g)]
-            g = rng.choice(users)
-            if "u" + ff not in refs[g]:
-                refs[g].append("u" + ff)
-        fault = {"kind": ph, "file": ff}
+            if builtin and builtin[0] == "kb" and rng.random() < 0.5:
+                ff = "<builtin>"               # the duplicates live in the (string) builtin model
+                g, name = rng.choice(files), "kb"
+            else:
+                # somebody who sees the file must mention the duplicated name
+                g, name = rng.choice([g for g in files if g == ff or ff in direct(g)]), "u" + ff
+            if name not in refs[g] + lrefs[g]:
+                (lrefs if at == "list" else refs)[g].append(name)
+        fault = {"kind": ph, "file": ff, "at": at}
     big = profile == "C28"
     pad = {f: rng.choice([0, 0, 1, 2, 4] if big else [0, 0, 1]) for f in files}
     ind = {f: rng.choice([0, 1, 2, 5] if big else [0, 0, 2]) for f in files}
-    grepo = rng.random() < 0.6
-    declared = rng.choice([[], ["p"], ["p", "q"]]) if profile == "C27" else rng.choice([[], ["p"]])
-
-    def given():
-        if profile == "C27":
-            return sorted(rng.sample(["p", "q", "project_root", "zzz"], rng.choice([0, 1, 1, 2, 3])))
-        return [x for x in declared if rng.random() < 0.3]
+    pool = rng.choice([[], ["p"], ["p", "q"]]) if profile == "C27" else rng.choice([[], ["p"]])
+    declared = {"A": pool, "B": rng.choice([pool, [], ["p"]]) if two else []}
 
     def load(f=None):
         f = f or rng.choice(files)
         how = rng.choice(["file", "file", "file", "strfile"])
-        if not glob_kind and not imports[f] and rng.random() < 0.2:
+        if (glob_kind or not imports[f]) and rng.random() < 0.25:
             how = "str"
-        return {"op": "load", "file": f, "how": how, "given": given()}
+        if profile == "C27":
+            given = sorted(rng.sample(["p", "q", "project_root", "zzz"], rng.choice([0, 1, 1, 2, 3])))
+        else:
+            given = [x for x in declared[lang[f]] if rng.random() < 0.3]
+        return {"op": "load", "file": f, "how": how, "given": given,
+                "vals": rng.choice(["std", "std", "none", "falsy"]) if profile == "C27" else "std"}
 
     session = [load() for _ in range(rng.choice([1, 2, 2, 3]))]
     if fault["kind"] != "none":
-        session.append({"op": "repair", "file": "-", "how": "-", "given": []})
+        session.append({"op": "repair", "file": "-", "how": "-", "given": [], "vals": "-"})
         session += [load(session[-2]["file"])] + [load() for _ in range(rng.choice([0, 1, 2]))]
-    return dict(files=files, imports=imports, glob=glob, defs=defs, refs=refs, pad=pad, ind=ind, kind=kind,
-                grepo=grepo, builtin=builtin, declared=declared, fault=fault, session=session, clean=clean)
+    return dict(files=files, lang=lang, imports=imports, glob=glob, defs=defs, refs=refs, lrefs=lrefs, pad=pad,
+                ind=ind, kind=kind, repo=repo, builtin=builtin, declared=declared, fault=fault,
+                session=session, clean=clean)
 
 
 # ----------------------------------------------------------------------------- the two conformance passes
@@ -730,7 +792,7 @@ def check_traces(rep, pid, findings, traces, shards=None):
             tr = traces[t - 1]
             sc = tr["sc"]
             if got[t]["reached"] == got[t]["len"]:
-                rep.passed(dict(kind=sc["kind"], grepo=sc["grepo"], imports=sc["imports"], fault=sc["fault"],
+                rep.passed(dict(kind=sc["kind"], repo=sc["repo"], lang=sc["lang"], imports=sc["imports"], fault=sc["fault"],
                                 events=[[e["e"], e.get("file", e.get("res", {}).get("kind", ""))]
                                         for e in tr["events"]][:40]),
                            nontrivial=len(sc["files"]) >= 2 and len(tr["events"]) >= 6)
@@ -743,7 +805,7 @@ def check_traces(rep, pid, findings, traces, shards=None):
                 rep.violation(dict(kind="trace", scenario=sc, events=tr["events"]),
                               f"event {k + 1} of a recorded session is not a step of LoaderRepo!Next: "
                               f"{ev.get('e')} {ev.get('file', '')} {ev.get('res', '')} "
-                              f"(kind={sc['kind']} grepo={sc['grepo']} imports={sc['imports']} fault={sc['fault']})")
+                              f"(kind={sc['kind']} repo={sc['repo']} lang={sc['lang']} imports={sc['imports']} fault={sc['fault']})")
         rep.bounds["traces"] = dict(count=len(traces), events=sum(len(t["events"]) for t in traces))
     finally:
         shutil.rmtree(work, ignore_errors=True)
@@ -758,8 +820,8 @@ def replay_case(path, findings):
     work = tlc.scratch("vt-mf-replay-")
     try:
         hist, events = run_scenario(sc)
-        print("scenario:", json.dumps({k: sc[k] for k in ("kind", "grepo", "files", "imports", "glob", "defs",
-                                                           "refs", "builtin", "declared", "fault", "session")}))
+        print("scenario:", json.dumps({k: sc[k] for k in ("kind", "repo", "lang", "files", "imports", "glob", "defs",
+                                                           "refs", "lrefs", "builtin", "declared", "fault", "session")}))
         for i, h in enumerate(hist):
             print(f"load {i + 1}: {h['res']}  grepo={h['grepo']}  opens={h['opens']}")
         if case.get("kind") == "trace":
